@@ -7,6 +7,7 @@ Helper lemmas: `Proofs/C08.lean`.
 -/
 import Mahotas.Proofs.C08
 import Mahotas.Generated.Normalise
+import Mahotas.Generated.CopyGuards
 open Mahotas Mahotas.C08
 
 namespace Mahotas.C08
@@ -177,6 +178,21 @@ theorem C08_wrappers_accept_all_layouts_source_tie :
         [true, false].all fun c => [true, false].all fun w => [true, false].all fun o =>
           wrapperAccepts n { ccontig := c, aligned := true, writeable := w, fOrder := o }) = true := by
   decide
+
+/-- **T5 (purity, decision logic tied to the source).** In the current source the three wrappers
+around in-place native kernels — `convolve._wavelet_array` (haar, ihaar, daubechies, idaubechies),
+`labeled._as_labeled` (relabel, remove_regions, remove_regions_where) and `features.surf.integral` —
+hand the kernel a fresh array (`copy()`, `astype`, `np.array`) on every path taken when their
+`inline` / `inplace` / `in_place` flag is false: the caller's array is only reachable when asked for.
+(That `copy`/`astype`/`np.array` really copy, and that no other function writes to an argument, is
+validated by the sweep's before/after hashes.) -/
+theorem C08_inplace_kernels_only_when_asked :
+    Generated.copyGuards.map (fun g => (g.1, g.2.1)) =
+      [("convolve._wavelet_array", "inline"), ("labeled._as_labeled", "inplace"),
+       ("features.surf.integral", "in_place")] ∧
+    (Generated.copyGuards.all fun g => inplaceTarget false g.2.2 == .copy) = true ∧
+    (∀ calls, inplaceTarget true calls = .user) := by
+  refine ⟨by decide, by decide +kernel, fun calls => by simp [inplaceTarget]⟩
 
 /-! non-vacuity: a reversed, transposed, gapped 3×2×2 view (negative and non-monotone strides, offset
     base) is well-formed; the iterator, `at_flat` and the address map agree on all 12 elements, and it
